@@ -58,6 +58,10 @@ type c19SharpIn struct {
 	Pos         int    `json:"pos,omitempty"`  // index of the message under the limit test
 	Limit       int64  `json:"limit,omitempty"`
 	Delta       int64  `json:"delta"` // message size - limit
+	// server side: "" = the server was started with message_receive_limit = serverReceiveLimit;
+	// "runner" = with the ServerCompatRequest that the real runTestCasesForServer writes for a
+	// server instance of THIS protocol (HTTP/2, cleartext), captured from a scripted process
+	Cfg string `json:"cfg,omitempty"`
 }
 
 type c19SharpOut struct {
@@ -105,7 +109,8 @@ type c19ClientPool struct {
 const c19PoolSize = 4
 
 var (
-	c19Servers = map[string]*c19Server{"ref": {}, "plain": {}, "fixture": {}}
+	c19Servers = map[string]*c19Server{"ref": {}, "plain": {}, "fixture": {},
+		"ref@1": {}, "ref@2": {}, "ref@3": {}, "plain@1": {}, "plain@2": {}, "plain@3": {}}
 	c19Clients = map[string]*c19ClientPool{"ref": {}, "plain": {}}
 	c19Seq     atomic.Int64
 )
@@ -116,6 +121,21 @@ func (s *c19Server) start(kind string) {
 		return
 	}
 	ctx := context.Background()
+	compat := &conformancev1.ServerCompatRequest{
+		Protocol:            conformancev1.Protocol_PROTOCOL_CONNECT,
+		HttpVersion:         conformancev1.HTTPVersion_HTTP_VERSION_2, // cleartext: serves HTTP/1.1 and h2c
+		MessageReceiveLimit: uint32(cc.VerifC19ServerReceiveLimit()),  // as runTestCasesForServer does
+	}
+	if base, p, ok := strings.Cut(kind, "@"); ok {
+		// configured by the runner itself: whatever the real runTestCasesForServer writes for a
+		// server instance of this protocol
+		obs := cc.VerifC19ServerRequest(cc.VerifC19SrvSpec{Protocol: int32(p[0] - '0'), HTTPVersion: 2, IsRef: base == "ref"})
+		if obs.Req == nil {
+			s.err = fmt.Errorf("the runner wrote no server request: %s", obs.Err)
+			return
+		}
+		compat, kind = obs.Req, base
+	}
 	sin, sinW := io.Pipe()
 	soutR, sout := io.Pipe()
 	go func() {
@@ -129,11 +149,7 @@ func (s *c19Server) start(kind string) {
 		sout.CloseWithError(fmt.Errorf("reference server ended: %v", err))
 	}()
 	go func() {
-		_ = internal.WriteDelimitedMessage(sinW, &conformancev1.ServerCompatRequest{
-			Protocol:            conformancev1.Protocol_PROTOCOL_CONNECT,
-			HttpVersion:         conformancev1.HTTPVersion_HTTP_VERSION_2, // cleartext: serves HTTP/1.1 and h2c
-			MessageReceiveLimit: uint32(cc.VerifC19ServerReceiveLimit()),  // as runTestCasesForServer does
-		})
+		_ = internal.WriteDelimitedMessage(sinW, compat)
 		sinW.Close()
 	}()
 	var resp conformancev1.ServerCompatResponse
@@ -473,7 +489,14 @@ func c19Sharp(in c19SharpIn) c19SharpOut {
 		if err != nil {
 			return fail(err)
 		}
-		res, err := c19Call("ref", mode, req)
+		serverKind := mode
+		switch {
+		case in.Cfg == "runner" && in.Protocol >= 1 && in.Protocol <= 3:
+			serverKind = fmt.Sprintf("%s@%d", mode, in.Protocol)
+		case in.Cfg != "":
+			return fail(fmt.Errorf("cfg %q?", in.Cfg))
+		}
+		res, err := c19Call("ref", serverKind, req)
 		if err != nil {
 			return fail(err)
 		}
@@ -685,6 +708,25 @@ func c19SharpGen(c *gen.Ctx) {
 					add(c19SharpIn{Side: "server", Mode: mode, Protocol: 2, Compression: comp, Stream: "fullbidi", N: 3, Pos: int(comp) % 3, Delta: delta})
 					add(c19SharpIn{Side: "client", Mode: mode, Protocol: 2, Compression: comp, Stream: "unary", Delta: delta})
 					add(c19SharpIn{Side: "client", Mode: mode, Peer: "fixture", Protocol: 3, Compression: comp, Stream: "serverstream", N: 3, Pos: int(comp) % 3, Delta: delta})
+				}
+			}
+		}
+	}
+	// the server configured by the runner itself for an instance of the call's protocol: every
+	// protocol, around the limit and around the 5-byte envelope prefix above it
+	for _, mode := range []string{"ref", "plain"} {
+		for protocol := int32(1); protocol <= 3; protocol++ {
+			for i, delta := range []int64{-1, 0, 1, 5, 6} {
+				add(c19SharpIn{Side: "server", Mode: mode, Cfg: "runner", Protocol: protocol, Compression: 1, Stream: "unary", Delta: delta})
+				add(c19SharpIn{Side: "server", Mode: mode, Cfg: "runner", Protocol: protocol, Compression: 1, Stream: "clientstream", N: 3, Pos: i % 3, Delta: delta})
+				if c.Thorough() || mode == "ref" {
+					add(c19SharpIn{Side: "server", Mode: mode, Cfg: "runner", Protocol: protocol, Compression: int32(2 + (i+int(protocol))%5), Stream: "fullbidi", N: 3, Pos: (i + 1) % 3, Delta: delta})
+				}
+				if c.Thorough() {
+					for _, st := range []string{"idempotent", "serverstream"} {
+						add(c19SharpIn{Side: "server", Mode: mode, Cfg: "runner", Protocol: protocol, Compression: 1, Stream: st, Delta: delta})
+					}
+					add(c19SharpIn{Side: "server", Mode: mode, Cfg: "runner", Protocol: protocol, Compression: 2, Stream: "halfbidi", N: 3, Pos: (i + 2) % 3, Delta: delta})
 				}
 			}
 		}
